@@ -557,6 +557,30 @@ def run(c):
     if st["disagree"]:
         c.corr_break("%d of %d model/implementation lines differ; first: %s" % (st["disagree"], len(lines), first["op"]), first)
 
+    def near_collision(m0, bodies, G, boost, dtq, span):
+        """does the close pair pass through a near-collision within |t| <= span (either direction)?  Default IAS15 from the same
+        initial state; criterion: its step falls below 1e-3 of the initial one (a physical property of the orbit, not of the scheme under test)"""
+        for sg_ in (1.0, -1.0):
+            scs = build_sim(rebound, m0, bodies, G, boost, dict(integrator="ias15"), sg_ * dtq)
+            for _k in range(200000):
+                scs.steps(1)
+                if abs(scs.dt_last_done) < 1e-3 * dtq:
+                    return True
+                if abs(scs.t) > span:
+                    break
+        return False
+
+    def safe_close_pair(rng, fam, m0, bodies, G, boost, dtq, span):
+        """family 3 (close planet pair): a random draw now and then passes within 1e-7..1e-9 of a point-mass collision (seen: 2.9e-7 at t=1,
+        9e-9 at t=-87); there the adaptive schemes lose 1e-11 in energy or stop ("not making progress") -- the step-size-control regime
+        (C01/C08), outside "bounded systems in the stable regime".  Redraw until the orbit stays clear of it over the span (both directions)."""
+        for _redraw in range(8):
+            if fam != 3 or not near_collision(m0, bodies, G, boost, dtq, span):
+                break
+            c.cov["close_pair_redrawn_near_collision"] = c.cov.get("close_pair_redrawn_near_collision", 0) + 1
+            m0, bodies, G = gen_system(rng, fam)
+        return m0, bodies, G
+
     # ======================================================================= search: conservation, all integrators x options
     cfgs = all_configs()
     c.cov["integrator_configurations_available"] = len(cfgs)
@@ -624,6 +648,7 @@ def run(c):
             boost = [rng.normal() for _ in range(3)] + [0.3 * rng.normal() for _ in range(3)]
             Pin = 2 * math.pi * math.sqrt(bodies[0][1] ** 3 / (G * m0))
             dt0 = Pin / (rng.uniform(25, 40) if cf["integrator"] != "janus" else rng.uniform(100, 150))   # high-order JANUS needs a finer step
+            m0, bodies, G = safe_close_pair(rng, fam, m0, bodies, G, boost, dt0, 4.0 * (nsteps + 12) * dt0)
             res = []
             res_sig = [None]
             for dt in (dt0, dt0 / 2):
@@ -845,93 +870,87 @@ def run(c):
         boost = [rng.normal() for _ in range(3)] + [0.3 * rng.normal() for _ in range(3)]
         Pin = 2 * math.pi * math.sqrt(bodies[0][1] ** 3 / (G * m0))
         dtq = Pin / (rng.uniform(28, 40) if cf["integrator"] != "janus" else rng.uniform(100, 150))
-        try:
-            if cf["integrator"] in ("ias15", "bs") and f["fam"] == 3:
-                # the adaptive schemes follow a near-collision of the close pair with 1e5..1e6 steps (legacy IAS15 step control: dt ~ 1e-8):
-                # that is the step-size-control regime (C01/C08), and minutes of wall time.  Scout the planned span (both directions:
-                # 'reverse' events) with default IAS15 and redraw the pair while its step falls below 1e-3 of the initial one.
-                for _redraw in range(6):
-                    near = False
-                    for sg_ in (1.0, -1.0):
-                        scs = build_sim(rebound, m0, bodies, G, boost, dict(integrator="ias15"), sg_ * dtq)
-                        for _k in range(8 * (3 * pstep + 12) // 8):
-                            scs.steps(1)
-                            if abs(scs.dt_last_done) < 1e-3 * dtq:
-                                near = True
-                                break
-                            if abs(scs.t) > (3 * pstep + 12) * dtq * 1.2:
-                                break
-                        if near:
-                            break
-                    if not near:
-                        break
-                    c.cov["pairwise_close_pair_redrawn_near_collision"] = c.cov.get("pairwise_close_pair_redrawn_near_collision", 0) + 1
-                    m0, bodies, G = gen_system(rng, f["fam"])
-            sim = build_sim(rebound, m0, bodies, G, boost, cf, dtq)
-            if f["dtsign"] == "-":
-                sim.dt = -sim.dt
-            if f["roles"] == "massless-tp":
-                nm_ = sim.N
-                sim.add(m=0.0, a=bodies[-1][1] * 1.7, e=0.02, primary=sim.particles[0])
-                sim.add(m=0.0, a=bodies[0][1] * 0.55, e=0.01, f=1.0, primary=sim.particles[0])
-                sim.N_active = nm_
-            if f["cb"] == "readonly":
-                def _ro2(simp, _c=cb_calls):
-                    _c[0] += 1
-                    _ = simp.contents.particles[0].x
-                sim.post_timestep_modifications = _ro2
-                sim.heartbeat = _ro2
-                sim.additional_forces = _ro2
-            if f["var"] == "first":
-                sim.add_variation()
-                for i_ in range(sim.N - sim.N_var, sim.N):
-                    pv = sim.particles[i_]
-                    pv.x, pv.y, pv.z = 1e-3 * rng.normal(), 1e-3 * rng.normal(), 1e-3 * rng.normal()
-                    pv.vx, pv.vy, pv.vz = 1e-3 * rng.normal(), 1e-3 * rng.normal(), 1e-3 * rng.normal()
-            i0 = invariants(raw(sim), G)
-            t0 = sim.t
-            wE = wP = wL = wR = 0.0
-            for ch, ev in enumerate((f["evA"], f["evB"], "none")):
-                k = pstep + rng.randint(0, 3)
-                if f["calls"] == "steps":
-                    sim.steps(k)
-                elif f["calls"] == "split-integrate":
-                    sim.integrate(sim.t + (k // 2) * sim.dt * (1 + 1e-9), exact_finish_time=0)
-                    sim.integrate(sim.t + (k - k // 2) * sim.dt * (1 + 1e-9), exact_finish_time=0)
-                elif f["calls"] == "integrate-inexact":
-                    sim.integrate(sim.t + k * sim.dt * (1 + 1e-9), exact_finish_time=0)
-                else:
-                    dt_now = sim.dt if cf["integrator"] not in ("ias15", "bs") else (dtq if f["dtsign"] == "+" else -dtq)
-                    for _o in range(6):
-                        sim.integrate(sim.t + (k / 6.0 + 0.37) * dt_now)       # exact_finish_time=1: last step shortened, dt restored
-                sim.synchronize()
-                iv = invariants(raw(sim), G)
-                tt = sim.t - t0
-                wP = max(wP, norm([a - b for a, b in zip(iv["P"], i0["P"])]) / i0["Pscale"])
-                wL = max(wL, norm([a - b for a, b in zip(iv["L"], i0["L"])]) / i0["Lscale"])
-                Rs = math.fsum(abs(p[0]) * norm(p[1:4]) for p in raw(sim)) + i0["Pscale"] * abs(tt)
-                wR = max(wR, norm([a - b - pp * tt for a, b, pp in zip(iv["R"], i0["R"], i0["P"])]) / Rs)
-                wE = max(wE, abs(iv["E"] - i0["E"]) / i0["Escale"])
-                # ---- event between this chunk and the next (event adjacency: evA then evB)
-                if ev == "synchronize":
-                    sim.synchronize(); sim.synchronize()
-                elif ev == "copy":
-                    sim = sim.copy()
-                elif ev == "pickle":
-                    sim = pickle.loads(pickle.dumps(sim))
-                elif ev == "file":
-                    fn_ = os.path.join(tempfile.gettempdir(), "c04p_%d.bin" % os.getpid())
-                    sim.save_to_file(fn_, delete_file=True)
-                    sim = rebound.Simulation(fn_)
-                    os.remove(fn_)
-                elif ev == "reverse":
-                    sim.dt = -sim.dt
-                elif ev == "dt-change":
-                    sim.dt = 0.7 * sim.dt
-                if ev in ("copy", "pickle", "file") and f["cb"] == "readonly":
-                    sim.post_timestep_modifications = _ro2; sim.heartbeat = _ro2; sim.additional_forces = _ro2
-        except Exception as ex:
-            viol.append(("pairwise:crash:" + cfg_key(cf), "pairwise case %r raised %r" % (f, ex), dict(factors=f, cfg=cf)))
+        row_ok = True
+        for _attempt in range(4):
+          sim, t0 = None, 0.0
+          try:
+              # 4x the nominal span: the adaptive step grows to ~3 dt0, so k steps / k*sim.dt reach further than k*dt0
+              m0, bodies, G = safe_close_pair(rng, f["fam"], m0, bodies, G, boost, dtq, 4.0 * (3 * pstep + 12) * dtq)
+              sim = build_sim(rebound, m0, bodies, G, boost, cf, dtq)
+              if f["dtsign"] == "-":
+                  sim.dt = -sim.dt
+              if f["roles"] == "massless-tp":
+                  nm_ = sim.N
+                  sim.add(m=0.0, a=bodies[-1][1] * 1.7, e=0.02, primary=sim.particles[0])
+                  sim.add(m=0.0, a=bodies[0][1] * 0.55, e=0.01, f=1.0, primary=sim.particles[0])
+                  sim.N_active = nm_
+              if f["cb"] == "readonly":
+                  def _ro2(simp, _c=cb_calls):
+                      _c[0] += 1
+                      _ = simp.contents.particles[0].x
+                  sim.post_timestep_modifications = _ro2
+                  sim.heartbeat = _ro2
+                  sim.additional_forces = _ro2
+              if f["var"] == "first":
+                  sim.add_variation()
+                  for i_ in range(sim.N - sim.N_var, sim.N):
+                      pv = sim.particles[i_]
+                      pv.x, pv.y, pv.z = 1e-3 * rng.normal(), 1e-3 * rng.normal(), 1e-3 * rng.normal()
+                      pv.vx, pv.vy, pv.vz = 1e-3 * rng.normal(), 1e-3 * rng.normal(), 1e-3 * rng.normal()
+              i0 = invariants(raw(sim), G)
+              t0 = sim.t
+              wE = wP = wL = wR = 0.0
+              for ch, ev in enumerate((f["evA"], f["evB"], "none")):
+                  k = pstep + rng.randint(0, 3)
+                  if f["calls"] == "steps":
+                      sim.steps(k)
+                  elif f["calls"] == "split-integrate":
+                      sim.integrate(sim.t + (k // 2) * sim.dt * (1 + 1e-9), exact_finish_time=0)
+                      sim.integrate(sim.t + (k - k // 2) * sim.dt * (1 + 1e-9), exact_finish_time=0)
+                  elif f["calls"] == "integrate-inexact":
+                      sim.integrate(sim.t + k * sim.dt * (1 + 1e-9), exact_finish_time=0)
+                  else:
+                      dt_now = sim.dt if cf["integrator"] not in ("ias15", "bs") else (dtq if f["dtsign"] == "+" else -dtq)
+                      for _o in range(6):
+                          sim.integrate(sim.t + (k / 6.0 + 0.37) * dt_now)       # exact_finish_time=1: last step shortened, dt restored
+                  sim.synchronize()
+                  iv = invariants(raw(sim), G)
+                  tt = sim.t - t0
+                  wP = max(wP, norm([a - b for a, b in zip(iv["P"], i0["P"])]) / i0["Pscale"])
+                  wL = max(wL, norm([a - b for a, b in zip(iv["L"], i0["L"])]) / i0["Lscale"])
+                  Rs = math.fsum(abs(p[0]) * norm(p[1:4]) for p in raw(sim)) + i0["Pscale"] * abs(tt)
+                  wR = max(wR, norm([a - b - pp * tt for a, b, pp in zip(iv["R"], i0["R"], i0["P"])]) / Rs)
+                  wE = max(wE, abs(iv["E"] - i0["E"]) / i0["Escale"])
+                  # ---- event between this chunk and the next (event adjacency: evA then evB)
+                  if ev == "synchronize":
+                      sim.synchronize(); sim.synchronize()
+                  elif ev == "copy":
+                      sim = sim.copy()
+                  elif ev == "pickle":
+                      sim = pickle.loads(pickle.dumps(sim))
+                  elif ev == "file":
+                      fn_ = os.path.join(tempfile.gettempdir(), "c04p_%d.bin" % os.getpid())
+                      sim.save_to_file(fn_, delete_file=True)
+                      sim = rebound.Simulation(fn_)
+                      os.remove(fn_)
+                  elif ev == "reverse":
+                      sim.dt = -sim.dt
+                  elif ev == "dt-change":
+                      sim.dt = 0.7 * sim.dt
+                  if ev in ("copy", "pickle", "file") and f["cb"] == "readonly":
+                      sim.post_timestep_modifications = _ro2; sim.heartbeat = _ro2; sim.additional_forces = _ro2
+          except Exception as ex:
+              # a posteriori: the run ended in "not making progress" and the pair really passes through a near-collision inside the span
+              # that was covered (default IAS15 from the same initial state) -> redraw the system and run the row again
+              if ("not making progress" in str(ex) and f["fam"] == 3 and sim is not None and _attempt < 3
+                      and near_collision(m0, bodies, G, boost, dtq, abs(sim.t - t0) * 1.05 + 2 * dtq)):
+                  c.cov["pairwise_rows_rerun_after_physical_near_collision"] = c.cov.get("pairwise_rows_rerun_after_physical_near_collision", 0) + 1
+                  m0, bodies, G = gen_system(rng, f["fam"])
+                  continue
+              viol.append(("pairwise:crash:" + cfg_key(cf), "pairwise case %r raised %r" % (f, ex), dict(factors=f, cfg=cf)))
+              row_ok = False
+          break
+        if not row_ok:
             continue
         plog.add(f)
         c.count(("pairwise", pi, 0 if c.thorough else c.seed))
